@@ -102,6 +102,12 @@ func genC14(rt *rapid.T) C14Scenario {
 		twin.Result.Complexity = int64(rapid.SampledFrom([]int{0, 2}).Draw(rt, "twin.portions")) * 10000000
 		s.Parallel = append(s.Parallel, twin)
 	}
+	if (strings.HasPrefix(s.Subject.Kind, "prof") || s.Subject.Kind == "render_diff") && rapid.Bool().Draw(rt, "proftwin?") {
+		// the same selector text asked for another profile type while the subject is being translated
+		twin := s.Subject
+		twin.ProfType = 1 - s.Subject.ProfType
+		s.Parallel = append(s.Parallel, twin)
+	}
 	// live tailing is defined for log queries (stream selector + pipeline) only
 	if (s.Subject.Kind == "query_range" || s.Subject.Kind == "query") && strings.HasPrefix(strings.TrimSpace(s.Subject.Query), "{") {
 		s.TailTicks = rapid.IntRange(0, 4).Draw(rt, "ticks")
@@ -384,7 +390,7 @@ func c14body(ri *simcheck.RunInfo, s C14Scenario) {
 	}
 
 	// follow-up statements may depend on what the database answered, so the answer is part of the identity
-	key := fmt.Sprintf("%s|%s|%s|%s|%s|%s|%s|%s|%s|%s|%+v", s.Cluster, s.Subject.Kind, s.Subject.Query, s.Subject.Start, s.Subject.End, s.Subject.Step, s.Subject.Limit, s.Subject.Direction, s.Subject.Time, s.Subject.Name, s.Subject.Result) + fmt.Sprint("|tod", s.SubjectTodS)
+	key := fmt.Sprintf("%s|%s|%s|%s|%s|%s|%s|%s|%s|%s|%+v", s.Cluster, s.Subject.Kind, s.Subject.Query, s.Subject.Start, s.Subject.End, s.Subject.Step, s.Subject.Limit, s.Subject.Direction, s.Subject.Time, s.Subject.Name, s.Subject.Result) + fmt.Sprint("|tod", s.SubjectTodS, "|pt", s.Subject.ProfType)
 	diff := func(a, b []string) (int, string, string) {
 		for i := 0; i < len(a) || i < len(b); i++ {
 			var x, y string
